@@ -636,12 +636,12 @@ func (r *renderer) r(v ssa.Value) string {
 		return x.Name()
 	case *ssa.FieldAddr:
 		f := fieldOf(x)
-		return r.r(x.X) + "." + f.Name()
+		return strings.TrimPrefix(r.r(x.X), "&") + "." + f.Name()
 	case *ssa.Field:
 		f := fieldOf(x)
 		return r.r(x.X) + "." + f.Name()
 	case *ssa.IndexAddr:
-		return r.r(x.X) + "[" + r.r(x.Index) + "]"
+		return strings.TrimPrefix(r.r(x.X), "&") + "[" + r.r(x.Index) + "]"
 	case *ssa.Index:
 		return r.r(x.X) + "[" + r.r(x.Index) + "]"
 	case *ssa.Lookup:
@@ -764,6 +764,21 @@ func (r *renderer) r(v ssa.Value) string {
 }
 
 func (r *renderer) alloc(a *ssa.Alloc) string {
+	// a parameter spilled to a local because it is indexed/address-taken: render as the
+	// parameter when the only store to it is the parameter itself
+	if refs := a.Referrers(); refs != nil {
+		var only ssa.Value
+		n := 0
+		for _, ref := range *refs {
+			if st, ok := ref.(*ssa.Store); ok && st.Addr == a {
+				n++
+				only = st.Val
+			}
+		}
+		if p, ok := only.(*ssa.Parameter); ok && n == 1 {
+			return "$" + p.Name()
+		}
+	}
 	if a.Comment != "" {
 		return "local:" + a.Comment
 	}
